@@ -306,7 +306,20 @@ class Gen:
             rng.shuffle(cands)
             for l in cands[: nout - 1]:
                 outs.append(l)
+            if o.get("force_nout") and isinstance(root, L.SumLayer):
+                # not enough candidates: further sum layers over the root's inputs (same scope, fresh weights)
+                while len(outs) < nout:
+                    outs.append(self.sum(list(self.in_layers[root]), root.num_input_units, K))
             rng.shuffle(outs)
+        if o.get("heads") and not o.get("regular") and not o.get("normalized"):
+            # multi-head: further arity-1 sum layers (extra outputs) reading a product layer that already feeds a sum layer
+            prods = [l for l in self.layers if isinstance(l, (L.HadamardLayer, L.KroneckerLayer))
+                     and any(isinstance(s_, L.SumLayer) and self.in_layers.get(s_) == [l] for s_ in self.layers)]
+            rng.shuffle(prods)
+            for pl in prods[: rng.choice([1, 1, 2])]:
+                for _ in range(rng.choice([1, 1, 2])):
+                    outs.append(self.sum([pl], pl.num_output_units, K))
+            self.desc["heads"] = len(outs)
         # keep only layers reachable from outputs
         c = Circuit(self.layers, self.in_layers, outs)
         sub = c.subgraph(*outs)
